@@ -13,7 +13,11 @@ CHECKS = {
           "other paths alone, and the re-based rename sequence composes to the per-node final path. The Lean model of "
           "apply_plan (content phase, rename ordering, re-basing, rollback, backup step) is executed against the real "
           "apply_plan on the same generated trees/plans on every run, and CLI plan->apply runs are compared with an "
-          "independent reference interpreter of the plan JSON.",
+          "independent reference interpreter of the plan JSON. The whole command is ONE equation on the tree model "
+          "(C02ren.apply_exact): success implies tree = moveAll rens (editAll hunks files t) — each planned file's bytes replaced by "
+          "applyEdits of its original bytes (= the left-to-right splice for consistent hunks, apply_exact_content), every key "
+          "rewritten by finalPath, nothing added, dropped, merged or reordered — with no hypothesis about destinations (the "
+          "pre-flight loop is exactly DestFree: destFree_iff_preflight_loop) nor about the plan's files (sortedFiles_nodup).",
   "design_ref": "DESIGN.md section 4, C02",
   "technique": "Lean 4 proof (induction over edit lists / rename lists) + differential correspondence model vs apply_plan + whole-tree oracle",
   "note": TB + "POSIX rename/chmod semantics as written in RModel.Model.Fs (no symlinked directories inside planned paths, "
